@@ -18,6 +18,14 @@ package command
 // with an abstract, symbolic length (verifAbstractLen: `len(b)` in the code under test yields that
 // length); gzip wraps a token into {magic, magic, id, 'z'} token {end} with a symbolic length of
 // its own; decoding checks tags and framing.
+//
+// SIZE is decided abstractly (entry VerifC29Size): the plain and the gzip form carry symbolic
+// lengths related only by what DEFLATE guarantees (gzip form >= 18 bytes; at most 1032 bytes of
+// content per byte of deflate data). The modelled gzip reader delivers exactly the abstract
+// uncompressed length - as the content token itself, or as fragment tokens {from, n} when something
+// (a chunked Read, an io.LimitedReader) takes only part of it; fragments reassemble to the message
+// only when they cover it completely. The native replay builds a real request with exactly the
+// solver's plain and gzip lengths (a blob of incompressible bytes followed by zeros).
 
 import (
 	"bytes"
@@ -47,6 +55,59 @@ const (
 // verifWindow: the difference len(gzip form) - len(plain form) is reproduced exactly by the native
 // replay when it lies within +-verifWindow, and by sign beyond that.
 const verifWindow = 12
+
+// Abstract lengths. verifGzMin: RFC 1952 (10 bytes of header, 8 of trailer). In the entries whose
+// content is a few concrete bytes the encoded forms have lengths up to verifSmallRaw/verifSmallGz;
+// in the size entry (verifSizeMode) any length up to verifAnyLen.
+const (
+	verifGzMin    = 18
+	verifSmallRaw = 4095
+	verifSmallGz  = 8191
+	verifAnyLen   = 1 << 40
+	// the native replay builds payloads of up to verifSizeCap bytes
+	verifSizeCap = 1 << 24
+)
+
+// verifDeflate: all that is taken for granted about the length g of the gzip form of u bytes - the
+// framing, and RFC 1951: one length/distance pair stands for at most 258 bytes and costs at least
+// two bits, i.e. at most 1032 bytes of content per byte of deflate data. Nothing else: the gzip
+// form may be longer than the content by any amount.
+func verifDeflate(u, g int) bool {
+	return verifAnd(g >= verifGzMin, u <= 1032*(g-verifGzMin))
+}
+
+// size entry: the lengths chosen for the message on this path
+var verifSizeMode bool
+var verifSizeRaw, verifSizeGz int
+
+// verifRealisable: lengths that the native replay reproduces EXACTLY (verifRealiseSize): a plain
+// form of 4 KiB..16 MiB whose gzip form lies between "nearly all zeros" and "half incompressible".
+func verifRealisable(raw, gz int) bool {
+	ok := verifAnd(raw >= 4096, raw <= verifSizeCap)
+	ok = verifAnd(ok, gz >= raw/1000+1024)
+	return verifAnd(ok, gz <= raw/2)
+}
+
+const verifBeyondReplay = " (lengths the replay cannot build exactly)"
+
+// verifPrefer is intercepted by the engine (engine/sym/intr_C29b.go): if the path allows c, c is
+// assumed and the result is true; else nothing is assumed and the result is false. No fork.
+func verifPrefer(c bool) bool { return c }
+
+// verifCheck is verifAssert. In the size entry a FAILING check first looks for a counterexample
+// among the lengths the native replay builds exactly (same id); only when the failing path has
+// none is the counterexample reported under a suffixed id - it is still reported, and replayed
+// with the nearest payload the replay can build.
+func verifCheck(id string, cond bool) {
+	if verifSizeMode {
+		if !cond {
+			if !verifPrefer(verifRealisable(verifSizeRaw, verifSizeGz)) {
+				verifAssert(id+verifBeyondReplay, false)
+			}
+		}
+	}
+	verifAssert(id, cond)
+}
 
 func verifBounds() (maxStmts, maxSQL int) {
 	if verifTier() == 1 {
@@ -85,10 +146,10 @@ func verifBuildRequest(n, maxSQL int) *proto.Request {
 func verifBuildRequestP(pre string, n, maxSQL int) *proto.Request {
 	salt := 1000 * len(pre)
 	req := &proto.Request{
-		Transaction:     verifBool(pre+"transaction"),
-		DbTimeout:       verifI64(pre+"dbTimeout"),
-		RollbackOnError: verifBool(pre+"rollbackOnError"),
-		QualifyColumns:  verifBool(pre+"qualifyColumns"),
+		Transaction:     verifBool(pre + "transaction"),
+		DbTimeout:       verifI64(pre + "dbTimeout"),
+		RollbackOnError: verifBool(pre + "rollbackOnError"),
+		QualifyColumns:  verifBool(pre + "qualifyColumns"),
 	}
 	for i := 0; i < n; i++ {
 		sql := verifText(verifString(verifName(pre+"sql", i), maxSQL), salt+i)
@@ -102,9 +163,9 @@ func verifBuildRequestP(pre string, n, maxSQL int) *proto.Request {
 		if i == 0 {
 			// one parameter of every kind, values symbolic (the float stays concrete)
 			st.Parameters = []*proto.Parameter{
-				{Value: &proto.Parameter_I{I: verifI64(pre+"paramI")}, Name: verifText(verifString(pre+"paramName", 4), salt+100)},
+				{Value: &proto.Parameter_I{I: verifI64(pre + "paramI")}, Name: verifText(verifString(pre+"paramName", 4), salt+100)},
 				{Value: &proto.Parameter_D{D: -2.5}},
-				{Value: &proto.Parameter_B{B: verifBool(pre+"paramB")}},
+				{Value: &proto.Parameter_B{B: verifBool(pre + "paramB")}},
 				{Value: &proto.Parameter_Y{Y: verifBytes(pre+"paramY", 2)}, Name: "blob"},
 				{Value: &proto.Parameter_S{S: verifText(verifString(pre+"paramS", 4), salt+101)}},
 				{Name: "novalue"},
@@ -122,24 +183,24 @@ func verifBuildMessage(kind int, req *proto.Request) Requester {
 func verifBuildMessageP(pre string, kind int, req *proto.Request) Requester {
 	switch kind {
 	case verifKindExecute:
-		return &proto.ExecuteRequest{Request: req, Timings: verifBool(pre+"timings")}
+		return &proto.ExecuteRequest{Request: req, Timings: verifBool(pre + "timings")}
 	case verifKindQuery:
 		return &proto.QueryRequest{
 			Request:             req,
-			Timings:             verifBool(pre+"timings"),
+			Timings:             verifBool(pre + "timings"),
 			Level:               proto.ConsistencyLevel(int32(verifInt(pre+"level", 0, 4))),
-			Freshness:           verifI64(pre+"freshness"),
-			FreshnessStrict:     verifBool(pre+"freshnessStrict"),
-			LinearizableTimeout: verifI64(pre+"linearizableTimeout"),
+			Freshness:           verifI64(pre + "freshness"),
+			FreshnessStrict:     verifBool(pre + "freshnessStrict"),
+			LinearizableTimeout: verifI64(pre + "linearizableTimeout"),
 		}
 	}
 	return &proto.ExecuteQueryRequest{
 		Request:             req,
-		Timings:             verifBool(pre+"timings"),
+		Timings:             verifBool(pre + "timings"),
 		Level:               proto.ConsistencyLevel(int32(verifInt(pre+"level", 0, 4))),
-		Freshness:           verifI64(pre+"freshness"),
-		FreshnessStrict:     verifBool(pre+"freshnessStrict"),
-		LinearizableTimeout: verifI64(pre+"linearizableTimeout"),
+		Freshness:           verifI64(pre + "freshness"),
+		FreshnessStrict:     verifBool(pre + "freshnessStrict"),
+		LinearizableTimeout: verifI64(pre + "linearizableTimeout"),
 	}
 }
 
@@ -514,6 +575,114 @@ func verifRealise(m pb.Message, req *proto.Request, rawLen, gzLen int) {
 	verifAssume(verifTune(m, req, lo, hi))
 }
 
+// verifSetPad (native replay): the first statement carries, as its last parameter, a blob "pad".
+func verifSetPad(req *proto.Request, pad []byte) {
+	st := req.Statements[0]
+	if k := len(st.Parameters); k > 0 && st.Parameters[k-1].Name == "pad" {
+		st.Parameters[k-1].Value = &proto.Parameter_Y{Y: pad}
+		return
+	}
+	st.Parameters = append(st.Parameters, &proto.Parameter{Value: &proto.Parameter_Y{Y: pad}, Name: "pad"})
+}
+
+// verifRealiseSize (native replay of the size entry): give the message a blob - a incompressible
+// bytes followed by zeros - such that the real plain encoding has EXACTLY rawLen bytes and the real
+// gzip form gzLen bytes (or, when no blob does that, the nearest length). Lengths below 4 KiB are
+// handled as in the other entries (verifRealise, requests only); payloads above verifSizeCap are
+// not built.
+func verifRealiseSize(m pb.Message, req *proto.Request, setPad func([]byte), rawLen, gzLen int) {
+	if verifSymbolic() {
+		return
+	}
+	if rawLen < 4096 {
+		if req != nil {
+			verifRealise(m, req, rawLen, gzLen)
+		}
+		return
+	}
+	verifAssume(rawLen <= verifSizeCap)
+	// the blob length that makes the plain encoding rawLen bytes long
+	setPad([]byte{})
+	l := rawLen - pb.Size(m)
+	verifAssume(l >= 0)
+	for i := 0; i < 8; i++ {
+		setPad(make([]byte, l))
+		d := pb.Size(m) - rawLen
+		if d == 0 {
+			break
+		}
+		l -= d
+		verifAssume(l >= 0)
+	}
+	setPad(make([]byte, l))
+	verifAssume(pb.Size(m) == rawLen)
+	// the number a of incompressible bytes (and h of bytes that carry half a byte of information
+	// each) that makes the gzip form gzLen bytes long
+	real := func(a, h int) int {
+		setPad(verifPad2(a, h, l))
+		raw, err := pb.Marshal(m)
+		if err != nil {
+			panic(err)
+		}
+		return len(verifGzip(raw))
+	}
+	a, h := 0, 0
+	g := real(0, 0)
+	bestA, bestH, bestD := 0, 0, verifAbs(g-gzLen)
+	note := func(a, h, g int) {
+		if d := verifAbs(g - gzLen); d < bestD {
+			bestA, bestH, bestD = a, h, d
+		}
+	}
+	for i := 0; i < 16 && g != gzLen; i++ {
+		next := a + gzLen - g
+		if next < 0 {
+			next = 0
+		}
+		if next > l {
+			next = l
+		}
+		if next == a {
+			break
+		}
+		a = next
+		g = real(a, 0)
+		note(a, 0, g)
+	}
+	centre := bestA
+	for d := 0; d <= 12 && bestD != 0; d++ {
+		cands := []int{centre - d, centre + d}
+		if d == 0 {
+			cands = cands[:1]
+		}
+		for _, c := range cands {
+			for h = 0; h <= 3 && bestD != 0; h++ {
+				if c < 0 || c+h > l || (d == 0 && h == 0) {
+					continue
+				}
+				note(c, h, real(c, h))
+			}
+		}
+	}
+	setPad(verifPad2(bestA, bestH, l))
+}
+
+func verifAbs(x int) int {
+	if x < 0 {
+		return -x
+	}
+	return x
+}
+
+// verifPad2: l bytes - a incompressible ones, h that take one of 16 values, zeros.
+func verifPad2(a, h, l int) []byte {
+	out := verifPad(a+h, l-a-h)
+	for i := a; i < a+h; i++ {
+		out[i] &= 0x0f
+	}
+	return out
+}
+
 // ---------------------------------------------------------------------------
 // entries
 
@@ -535,22 +704,32 @@ func verifSendRequest(kind, n int) (pb.Message, *verifOutcome29) {
 	batchThr := int(verifI64("batchThreshold"))
 	sizeThr := int(verifI64("sizeThreshold"))
 	force := verifBool("forceCompression")
-	rawLen := verifInt("rawLen", 0, 1<<40)
-	gzLen := verifInt("gzLen", 18, 1<<40) // RFC 1952: 10 bytes of header, 8 bytes of trailer
+	maxRaw, maxGz := verifSmallRaw, verifSmallGz
+	if verifSizeMode {
+		maxRaw, maxGz = verifAnyLen, verifAnyLen
+	}
+	rawLen := verifInt("rawLen", 0, maxRaw)
+	gzLen := verifInt("gzLen", verifGzMin, maxGz) // RFC 1952: 10 bytes of header, 8 bytes of trailer
+	verifAssume(verifDeflate(rawLen, gzLen))
 	if n == 0 {
 		// a request without statements has nothing the native replay could pad: only "gzip is larger"
 		verifAssume(gzLen > rawLen+verifWindow)
 	}
 	req := verifBuildRequest(n, maxSQL)
 	msg := verifBuildMessage(kind, req)
-	verifRealise(msg, req, rawLen, gzLen)
+	if verifSizeMode {
+		verifSizeRaw, verifSizeGz = rawLen, gzLen
+		verifRealiseSize(msg, req, func(pad []byte) { verifSetPad(req, pad) }, rawLen, gzLen)
+	} else {
+		verifRealise(msg, req, rawLen, gzLen)
+	}
 	verifPlanLens(rawLen, gzLen)
 	orig := verifClone(msg)
 
 	m := &RequestMarshaler{BatchThreshold: batchThr, SizeThreshold: sizeThr, ForceCompression: force}
 	b, compressed, err := m.Marshal(msg)
-	verifAssert("C29-request-marshals", err == nil)
-	verifAssert("C29-marshal-leaves-request-alone", verifIdentical(orig, msg))
+	verifCheck("C29-request-marshals", err == nil)
+	verifCheck("C29-marshal-leaves-request-alone", verifIdentical(orig, msg))
 
 	// what the thresholds say (documentation: -compression-batch / -compression-size are the
 	// request sizes from which compression is attempted)
@@ -565,20 +744,20 @@ func verifSendRequest(kind, n int) (pb.Message, *verifOutcome29) {
 	plain, gzErr := verifGunzip(b)
 	out.isGz = gzErr == nil
 	// the flag in the command must say exactly whether the payload is the gzip form
-	verifAssert("C29-compressed-flag-matches-payload", compressed == out.isGz)
+	verifCheck("C29-compressed-flag-matches-payload", compressed == out.isGz)
 	if !out.isGz {
 		plain = b
 	}
 	out.plain = plain
 	direct := verifFreshFor(verifCommandType(kind))
-	verifAssert("C29-payload-holds-the-request-encoding", pb.Unmarshal(plain, direct) == nil)
-	verifAssert("C29-payload-holds-the-request", verifIdentical(orig, direct))
+	verifCheck("C29-payload-holds-the-request-encoding", pb.Unmarshal(plain, direct) == nil)
+	verifCheck("C29-payload-holds-the-request", verifIdentical(orig, direct))
 
 	// compression is used only from the thresholds on (or when forced) ...
-	verifAssert("C29-compressed-only-from-threshold-or-forced", verifOr(!compressed, verifOr(exceeded, force)))
+	verifCheck("C29-compressed-only-from-threshold-or-forced", verifOr(!compressed, verifOr(exceeded, force)))
 	// ... and only when it makes the entry smaller (or when forced)
 	if compressed {
-		verifAssert("C29-compressed-only-if-smaller-or-forced", verifOr(verifLen(b) < verifLen(plain), force))
+		verifCheck("C29-compressed-only-if-smaller-or-forced", verifOr(verifLen(b) < verifLen(plain), force))
 	}
 	return orig, out
 }
@@ -588,19 +767,19 @@ func verifSendRequest(kind, n int) (pb.Message, *verifOutcome29) {
 func verifThroughLog(t proto.Command_Type, payload []byte, compressed bool) pb.Message {
 	cmd := &proto.Command{Type: t, SubCommand: payload, Compressed: compressed}
 	wire, err := Marshal(cmd)
-	verifAssert("C29-command-marshals", err == nil)
+	verifCheck("C29-command-marshals", err == nil)
 
 	got := &proto.Command{}
 	err = Unmarshal(verifSent(wire), got)
-	verifAssert("C29-command-unmarshals", err == nil)
-	verifAssert("C29-command-type-survives", got.Type == t)
-	verifAssert("C29-command-flag-survives", got.Compressed == compressed)
-	verifAssert("C29-command-payload-survives", verifSameBytes(got.SubCommand, payload))
+	verifCheck("C29-command-unmarshals", err == nil)
+	verifCheck("C29-command-type-survives", got.Type == t)
+	verifCheck("C29-command-flag-survives", got.Compressed == compressed)
+	verifCheck("C29-command-payload-survives", verifSameBytes(got.SubCommand, payload))
 
 	dec := verifFreshFor(got.Type)
-	verifAssert("C29-dispatch-knows-type", dec != nil)
+	verifCheck("C29-dispatch-knows-type", dec != nil)
 	err = UnmarshalSubCommand(got, dec)
-	verifAssert("C29-subcommand-decodes", err == nil)
+	verifCheck("C29-subcommand-decodes", err == nil)
 	return dec
 }
 
@@ -905,6 +1084,89 @@ func VerifC29Kept() {
 	verifAssert("C29-kept-encoding-still-decodes-to-its-request", verifStillDecodes(a))
 }
 
+// VerifC29Size: SIZE decided abstractly. A request of every kind with 1..N statements (or a load
+// request), any thresholds, forced or not; its plain encoding has ANY length, its gzip form any
+// length that DEFLATE allows for it (verifDeflate) - in particular payloads that shrink a thousand
+// times. Sender, log, receiver; the receiver's gzip reader hands the content over in one piece or
+// in two pieces of any size. Oracle of the statement: the decoded request is identical.
+func VerifC29Size() {
+	verifPanicsAreViolations()
+	maxStmts, _ := verifBounds()
+	verifSizeMode = true
+	what := verifChoice("what", verifKinds+1)
+	if what == verifKinds {
+		verifSizeLoad()
+		return
+	}
+	if verifTier() == 0 {
+		maxStmts = 2 // VerifC29Request goes to 3
+	}
+	n := 1 + verifChoice("nStmts", maxStmts)
+	orig, out := verifSendRequest(what, n)
+	verifChunkBudget = 1
+	dec := verifThroughLog(verifCommandType(what), out.payload, out.compressed)
+	verifCheck("C29-decoded-request-identical", verifIdentical(orig, dec))
+
+	// vacuity markers (forks at the very end of the path only)
+	if out.compressed {
+		if verifSizeRaw > 1000*verifSizeGz {
+			verifReach("compressed-more-than-1000-times")
+		} else if verifSizeRaw >= verifSizeGz {
+			verifReach("compressed-and-smaller")
+		} else {
+			verifReach("forced-although-not-smaller")
+		}
+		if verifChunkBudget == 0 && verifChunkSplit {
+			verifReach("content-delivered-in-two-pieces")
+		}
+	} else {
+		if out.exceeded {
+			verifReach("tried-but-kept-plain")
+		} else {
+			verifReach("below-thresholds")
+		}
+	}
+}
+
+// verifSizeLoad: a load request (database image) of any size; load requests are always compressed.
+func verifSizeLoad() {
+	rawLen := verifInt("rawLen", 0, verifAnyLen)
+	gzLen := verifInt("gzLen", verifGzMin, verifAnyLen)
+	verifAssume(verifDeflate(rawLen, gzLen))
+	verifSizeRaw, verifSizeGz = rawLen, gzLen
+	head := verifBytes("data", 2)
+	lr := &proto.LoadRequest{Data: head}
+	verifRealiseSize(lr, nil, func(pad []byte) { lr.Data = append(verifCloneBytes(head), pad...) }, rawLen, gzLen)
+	verifPlanLens(rawLen, gzLen)
+	orig := verifClone(lr)
+
+	b, err := MarshalLoadRequest(lr)
+	verifCheck("C29-load-marshals", err == nil)
+	verifCheck("C29-marshal-leaves-request-alone", verifIdentical(orig, lr))
+	plain, gzErr := verifGunzip(b)
+	verifCheck("C29-load-payload-is-gzip", gzErr == nil)
+	var direct proto.LoadRequest
+	verifCheck("C29-payload-holds-the-request-encoding", pb.Unmarshal(plain, &direct) == nil)
+	verifCheck("C29-payload-holds-the-request", verifIdentical(orig, &direct))
+
+	wire, err := Marshal(&proto.Command{Type: proto.Command_COMMAND_TYPE_LOAD, SubCommand: b})
+	verifCheck("C29-command-marshals", err == nil)
+	got := &proto.Command{}
+	verifCheck("C29-command-unmarshals", Unmarshal(verifSent(wire), got) == nil)
+	verifCheck("C29-command-type-survives", got.Type == proto.Command_COMMAND_TYPE_LOAD)
+	verifCheck("C29-command-payload-survives", verifSameBytes(got.SubCommand, b))
+	verifChunkBudget = 1
+	var dec proto.LoadRequest
+	err = UnmarshalLoadRequest(got.SubCommand, &dec)
+	verifCheck("C29-load-decodes", err == nil)
+	verifCheck("C29-decoded-load-identical", verifIdentical(orig, &dec))
+	if rawLen > 1000*gzLen {
+		verifReach("image-compressed-more-than-1000-times")
+	} else {
+		verifReach("image")
+	}
+}
+
 // VerifC29Twin: same set-up as VerifC29Request; the final claim is false (compression does happen).
 func VerifC29Twin() {
 	maxStmts, _ := verifBounds()
@@ -921,11 +1183,12 @@ func VerifC29Twin() {
 // None of this runs natively.
 
 const (
-	verifMagic0 = 0xF5
-	verifMagic1 = 0xC9
-	verifTagGz  = 0x7A
-	verifGzEnd  = 0xE0
-	verifTokLen = 4
+	verifMagic0  = 0xF5
+	verifMagic1  = 0xC9
+	verifTagGz   = 0x7A
+	verifTagFrag = 0x66
+	verifGzEnd   = 0xE0
+	verifTokLen  = 4
 )
 
 // verifEnc is one encoded form: a message (tag 1..8 + snapshot) or a gzip stream (verifTagGz).
@@ -933,6 +1196,9 @@ type verifEnc struct {
 	tag byte
 	msg pb.Message
 	n   int // abstract length in bytes
+	// fragments (verifTagFrag): bytes [from, from+n) of encoded form number src
+	src  int
+	from int
 }
 
 var verifEncs []*verifEnc
@@ -945,6 +1211,9 @@ var verifErrCodec = errors.New("verif: cannot parse")
 func verifPlanLens(raw, gz int) {
 	verifPlanned, verifPlanRaw, verifPlanGz = true, raw, gz
 }
+
+// verifIsPlanned: the message types whose lengths the entry plans (requests and load requests).
+func verifIsPlanned(tag byte) bool { return tag <= 3 || tag == 5 }
 
 func verifTagOf(m pb.Message) byte {
 	switch m.(type) {
@@ -998,21 +1267,26 @@ func verifPbMarshal(m pb.Message) ([]byte, error) {
 		return nil, errors.New("verif: message type outside the codec model")
 	}
 	n := 0
-	if verifPlanned && tag <= 3 {
+	if verifPlanned && verifIsPlanned(tag) {
 		n = verifPlanRaw
 	} else {
-		n = verifInt(verifName("encodedLen", len(verifEncs)), 0, 1<<40)
+		n = verifInt(verifName("encodedLen", len(verifEncs)), 0, verifSmallRaw)
 	}
 	return verifNewEnc(tag, snap, n), nil
 }
 
 // verifPbUnmarshal models proto.Unmarshal: only the token of a message of m's own type decodes.
 func verifPbUnmarshal(b []byte, m pb.Message) error {
-	if len(b) != verifTokLen {
+	if len(b) == 0 || len(b)%verifTokLen != 0 {
 		return verifErrCodec
 	}
-	e := verifEntryOf(b)
-	if e == nil || e.tag == verifTagGz || e.tag != verifTagOf(m) {
+	e := verifEntryOf(b[:verifTokLen])
+	if e != nil && e.tag == verifTagFrag {
+		e = verifReassemble(b)
+	} else if len(b) != verifTokLen {
+		return verifErrCodec
+	}
+	if e == nil || e.tag == verifTagGz || e.tag == verifTagFrag || e.tag != verifTagOf(m) {
 		return verifErrCodec
 	}
 	switch dst := m.(type) {
@@ -1045,6 +1319,41 @@ func verifPbUnmarshal(b []byte, m pb.Message) error {
 	return nil
 }
 
+// verifNewFrag: a token for bytes [from, from+n) of encoded form number src.
+func verifNewFrag(src, from, n int) []byte {
+	tok := verifNewEnc(verifTagFrag, nil, n)
+	e := verifEncs[tok[2]]
+	e.src, e.from = src, from
+	return tok
+}
+
+// verifReassemble: b is a sequence of fragment tokens; the encoded form they make up when they are
+// consecutive pieces of one form that cover it from its first to its last byte, else nil (a cut or
+// shuffled protobuf encoding is taken not to decode to the message).
+func verifReassemble(b []byte) *verifEnc {
+	src, pos := -1, 0
+	for i := 0; i+verifTokLen <= len(b); i += verifTokLen {
+		f := verifEntryOf(b[i : i+verifTokLen])
+		if f == nil || f.tag != verifTagFrag {
+			return nil
+		}
+		if src < 0 {
+			src = f.src
+		}
+		if f.src != src {
+			return nil
+		}
+		if f.from != pos {
+			return nil
+		}
+		pos += f.n
+	}
+	if src < 0 || pos != verifEncs[src].n {
+		return nil
+	}
+	return verifEncs[src]
+}
+
 // gzip writer model: the header (with the stream's abstract length) goes out with the first
 // Write, the content and the end marker with Close.
 type verifGzW struct {
@@ -1053,6 +1362,8 @@ type verifGzW struct {
 	pending []byte
 	header  bool
 	closed  bool
+	planned bool // the stream's length was planned by the entry (and related to the content there)
+	n       int  // the stream's abstract length
 }
 
 var verifGzWs []*verifGzW
@@ -1079,7 +1390,7 @@ func verifGzNewWriterLevel(w io.Writer, level int) (*gzip.Writer, error) {
 func verifGzWriterReset(z *gzip.Writer, w io.Writer) {
 	for _, st := range verifGzWs {
 		if st.zw == z {
-			st.dst, st.pending, st.header, st.closed = w, nil, false, false
+			st.dst, st.pending, st.header, st.closed, st.planned, st.n = w, nil, false, false, false, 0
 			return
 		}
 	}
@@ -1095,11 +1406,12 @@ func verifGzWriterWrite(z *gzip.Writer, p []byte) (int, error) {
 		w.header = true
 		n := 0
 		e := verifEntryOf(p)
-		if verifPlanned && e != nil && e.tag <= 3 {
-			n = verifPlanGz
+		if verifPlanned && e != nil && verifIsPlanned(e.tag) {
+			n, w.planned = verifPlanGz, true
 		} else {
-			n = verifInt(verifName("encodedLen", len(verifEncs)), 18, 1<<40)
+			n = verifInt(verifName("encodedLen", len(verifEncs)), verifGzMin, verifSmallGz)
 		}
+		w.n = n
 		if _, err := w.dst.Write(verifNewEnc(verifTagGz, nil, n)); err != nil {
 			return 0, err
 		}
@@ -1116,30 +1428,68 @@ func verifGzWriterClose(z *gzip.Writer) error {
 	w.closed = true
 	if !w.header {
 		w.header = true
-		if _, err := w.dst.Write(verifNewEnc(verifTagGz, nil, verifInt(verifName("encodedLen", len(verifEncs)), 18, 1<<40))); err != nil {
+		w.n = verifInt(verifName("encodedLen", len(verifEncs)), verifGzMin, verifSmallGz)
+		if _, err := w.dst.Write(verifNewEnc(verifTagGz, nil, w.n)); err != nil {
 			return err
 		}
+	}
+	if !w.planned {
+		// the stream is as long as DEFLATE allows for its content
+		verifAssume(verifDeflate(verifAbstractSize(w.pending), w.n))
 	}
 	_, err := w.dst.Write(append(verifCloneBytes(w.pending), verifGzEnd))
 	return err
 }
 
+// verifAbstractSize: the number of bytes b stands for (a single token: its abstract length).
+func verifAbstractSize(b []byte) int {
+	if len(b) == verifTokLen {
+		if e := verifEntryOf(b); e != nil {
+			return e.n
+		}
+	}
+	return len(b)
+}
+
 // gzip reader model: header checked by NewReader; a stream without its end marker delivers its
 // content and then io.ErrUnexpectedEOF.
+//
+// Content that is one token is an ABSTRACT stream of as many bytes as the token's abstract length
+// (symbolic). A Read hands over all of it that the reader may still take - everything, or, below
+// an io.LimitedReader, at most its N bytes, or (verifChunkBudget) a first piece of any size - as
+// the token itself or as a fragment token; the destination buffer only has to hold the 4 token
+// bytes. io.LimitedReader counts the abstract bytes (verifLimitedRead). Other content is delivered
+// byte by byte as before.
 type verifGzR struct {
 	zr   *gzip.Reader
 	data []byte
 	off  int
 	end  error
+	// abstract stream
+	abs    *verifEnc
+	absID  int
+	absOff int // abstract bytes handed over so far
+	done   bool
 }
 
 var verifGzRs []*verifGzR
 
-func verifGzROf(z *gzip.Reader) *verifGzR {
+// verifChunkBudget: that many abstract streams on this path may be handed over in two pieces.
+var verifChunkBudget int
+var verifChunkSplit bool
+
+func verifGzRFind(z *gzip.Reader) *verifGzR {
 	for _, r := range verifGzRs {
 		if r.zr == z {
 			return r
 		}
+	}
+	return nil
+}
+
+func verifGzROf(z *gzip.Reader) *verifGzR {
+	if r := verifGzRFind(z); r != nil {
+		return r
 	}
 	panic("verif: gzip.Reader not created by NewReader")
 }
@@ -1162,12 +1512,108 @@ func verifGzNewReader(r io.Reader) (*gzip.Reader, error) {
 	if k := len(st.data); k > 0 && st.data[k-1] == verifGzEnd {
 		st.data, st.end = st.data[:k-1], io.EOF
 	}
+	if len(st.data) == verifTokLen {
+		if e := verifEntryOf(st.data); e != nil {
+			st.abs, st.absID = e, int(st.data[2])
+		}
+	}
 	verifGzRs = append(verifGzRs, st)
 	return st.zr, nil
 }
 
+const verifNoLimit = 1 << 62
+
+// verifAbsDeliver: one Read of an abstract stream that may take at most limit (>= 1) bytes.
+// Returns the concrete count (token bytes), the abstract count, and the error.
+func verifAbsDeliver(r *verifGzR, p []byte, limit int) (int, int, error) {
+	if r.done {
+		return 0, 0, r.end
+	}
+	if len(p) == 0 {
+		return 0, 0, nil
+	}
+	if len(p) < verifTokLen {
+		panic("verif: abstract gzip content read into a buffer of fewer than 4 bytes (outside the codec model)")
+	}
+	total := r.abs.n
+	take := total - r.absOff
+	if limit < take {
+		take = limit
+	}
+	if verifChunkBudget > 0 {
+		verifChunkBudget--
+		if verifChoice("chunk.split", 2) == 1 {
+			k := verifInt("chunk.first", 1, verifAnyLen)
+			verifAssume(k < take)
+			take = k
+			verifChunkSplit = true
+		}
+	}
+	tok := r.data
+	if take != total {
+		tok = verifNewFrag(r.absID, r.absOff, take)
+	}
+	r.absOff += take
+	if r.absOff == total {
+		r.done = true
+	}
+	copy(p, tok)
+	return verifTokLen, take, nil
+}
+
+// verifAbsStream: the abstract stream at the bottom of r (through any number of LimitedReaders).
+func verifAbsStream(r io.Reader) *verifGzR {
+	switch x := r.(type) {
+	case *gzip.Reader:
+		if st := verifGzRFind(x); st != nil && st.abs != nil {
+			return st
+		}
+	case *io.LimitedReader:
+		return verifAbsStream(x.R)
+	}
+	return nil
+}
+
+// verifAbsRead: Read on r (verifAbsStream(r) != nil), at most limit abstract bytes.
+func verifAbsRead(r io.Reader, p []byte, limit int) (int, int, error) {
+	if l, ok := r.(*io.LimitedReader); ok {
+		if l.N <= 0 {
+			return 0, 0, io.EOF
+		}
+		if l.N < int64(limit) {
+			limit = int(l.N)
+		}
+		n, abs, err := verifAbsRead(l.R, p, limit)
+		l.N -= int64(abs)
+		return n, abs, err
+	}
+	return verifAbsDeliver(verifGzROf(r.(*gzip.Reader)), p, limit)
+}
+
+// verifLimitedRead models (*io.LimitedReader).Read: its own code, except that above an abstract
+// stream N counts the abstract bytes that were handed over.
+func verifLimitedRead(l *io.LimitedReader, p []byte) (int, error) {
+	if verifAbsStream(l) != nil {
+		n, _, err := verifAbsRead(l, p, verifNoLimit)
+		return n, err
+	}
+	if l.N <= 0 {
+		return 0, io.EOF
+	}
+	if int64(len(p)) > l.N {
+		p = p[0:l.N]
+	}
+	n, err := l.R.Read(p)
+	l.N -= int64(n)
+	return n, err
+}
+
 func verifGzReaderRead(z *gzip.Reader, p []byte) (int, error) {
 	r := verifGzROf(z)
+	if r.abs != nil {
+		n, _, err := verifAbsDeliver(r, p, verifNoLimit)
+		return n, err
+	}
 	if r.off >= len(r.data) {
 		return 0, r.end
 	}
